@@ -1,6 +1,10 @@
 /-
   C20 — Type-identifier conversions are lossless and consistent for all 2^32 values.
 -/
+import Mb2.Props.FnsTagType
+import Mb2.Props.FnsMemType
+import Mb2.Props.FnsElfType
+import Mb2.Props.FnsFbType
 import Mb2.Ids
 namespace Mb2.C20
 open Mb2
